@@ -93,8 +93,24 @@ def ploc(l, nm):
     return "(%d%%nat, [%s])" % (nm.get(l[0]), "; ".join("(%d)" % i for i in l[1]))
 
 
-def pstore_expect(vals, arrays, nm, expect):
-    return "(Some (%s, [%s]))" % (mf.store_to_coq(vals, arrays, nm),
+def names_of_stmt(T):
+    acc = {T[1]}
+    for e in list(T[2]) + [T[3]]:
+        for x in ext.subexprs(e):
+            if x[0] in ("var", "idx"):
+                acc.add(x[1])
+    return acc
+
+
+def small_store(vals, arrays, nm, T):
+    """the store restricted to the names the statement mentions (keeps the Coq literal small)"""
+    keep = names_of_stmt(T)
+    return mf.store_to_coq({k: v for k, v in vals.items() if k[0] in keep},
+                           {a: b for a, b in arrays.items() if a in keep}, nm)
+
+
+def pstore_expect(vals, arrays, nm, expect, T):
+    return "(Some (%s, [%s]))" % (small_store(vals, arrays, nm, T),
                                   "; ".join("(%s, (%d))" % (ploc(l, nm), v) for l, v in expect))
 
 
@@ -167,7 +183,7 @@ def pick_name(new_names, prefix):
 
 
 # ------------------------------------------------------------------ one case -> Coq term
-def encode(case, res, vals):
+def encode(case, res, vals, with_store=True):
     kind, arrays = case["kind"], case["arrays"]
     seg = diff_segment(res["orig"], res["out"])
     if not seg:
@@ -182,7 +198,7 @@ def encode(case, res, vals):
     for n in new:
         nm.get(n)
     # harness value of the original statement alone on this store (None when it is invalid there)
-    r0 = ext.interp([T], vals, arrays, strict=True)
+    r0 = ext.interp([T], vals, arrays, strict=True) if with_store else ("skipped",)
     if kind == "arrassign":
         if not T[2]:
             raise Skip("whole-array lhs")
@@ -191,7 +207,7 @@ def encode(case, res, vals):
         st = "None"
         if r0[0] == "ok":
             exp = [((T[1], l), r0[1].get((T[1], l), 0)) for l in all_locs(arrays[T[1]])]
-            st = pstore_expect(vals, arrays, nm, exp)
+            st = pstore_expect(vals, arrays, nm, exp, T)
         return "(CArr %s %d%%nat %s %s %s)" % (pdecls(arrays, nm), nm.get(idx), a, ps(R, nm), st)
     if kind in ("abs", "sign", "min", "max"):
         f = {"abs": "IAbs", "sign": "ISign", "min": "IMin", "max": "IMax"}[kind]
@@ -222,7 +238,7 @@ def encode(case, res, vals):
         st = "None"
         if r0[0] == "ok":
             loc = (T[1], tuple(ext.Machine(vals, arrays).scalar(x) for x in T[2]))
-            st = pstore_expect(vals, arrays, nm, [(loc, r0[1].get(loc, 0))])
+            st = pstore_expect(vals, arrays, nm, [(loc, r0[1].get(loc, 0))], T)
         return "(CRed %s %d%%nat %d%%nat %d%%nat %s R%s %s %s %s %d%%nat %s %s)" % (
             pdecls(arrays, nm), nm.get(idx), nm.get(tmpn), nm.get(T[1]), pexprs(T[2], nm), K,
             pa(red[2], nm, arrays), mask, ctx, hole, ps(R, nm), st)
@@ -243,9 +259,9 @@ def encode(case, res, vals):
         (v1, r1), (v2, r2) = vec(call[2][0]), vec(call[2][1])
         ctx = pe(replace_node(T[3], call, ("var", HOLE)), nm)
         st = "None"
-        rv = ext.interp([("assign", HOLE, [], call)], vals, arrays, strict=True)
+        rv = ext.interp([("assign", HOLE, [], call)], vals, arrays, strict=True) if with_store else ("skipped",)
         if rv[0] == "ok":
-            st = "(Some (%s, (%d)))" % (mf.store_to_coq(vals, arrays, nm), rv[1][(HOLE, ())])
+            st = "(Some (%s, (%d)))" % (small_store(vals, arrays, nm, T), rv[1][(HOLE, ())])
         return "(CDot %s %d%%nat %d%%nat %d%%nat %s %s %d%%nat %d%%nat %s %d%%nat %s %s %s)" % (
             pdecls(arrays, nm), nm.get(pick_name(new, "i")), nm.get(pick_name(new, "res_dot_product")), nm.get(T[1]),
             pexprs(T[2], nm), ctx, nm.get(HOLE), nm.get(v1), pexprs(r1, nm), nm.get(v2), pexprs(r2, nm), ps(R, nm), st)
@@ -256,7 +272,7 @@ def encode(case, res, vals):
             raise Skip("not matrix*vector of plain arrays")
         st = "None"
         if r0[0] == "ok":
-            st = pstore_expect(vals, arrays, nm, [((T[1], l), r0[1].get((T[1], l), 0)) for l in all_locs(arrays[T[1]])])
+            st = pstore_expect(vals, arrays, nm, [((T[1], l), r0[1].get((T[1], l), 0)) for l in all_locs(arrays[T[1]])], T)
         return "(CMatvec %s %d%%nat %d%%nat %d%%nat %d%%nat %d%%nat %s %s)" % (
             pdecls(arrays, nm), nm.get(pick_name(new, "i")), nm.get(pick_name(new, "j")), nm.get(T[1]), nm.get(m[1]),
             nm.get(v[1]), ps(R, nm), st)
@@ -274,7 +290,7 @@ HEADER = """From Coq Require Import ZArith. From PV Require Import Fort.Syntax F
 Open Scope Z_scope."""
 
 
-def correspondence(ctx, cases):
+def correspondence(ctx, cases, FX):
     """cases: list of (case, res).  -> (number of cases in the model subset, [(case, res, why)] that disagree)"""
     terms, kept = [], []
     rng = ctx.rng("corr-store")
@@ -286,7 +302,7 @@ def correspondence(ctx, cases):
                 if ext.interp(res["orig"], vals, case["arrays"], strict=True)[0] == "ok":
                     break
                 vals = case["_gen"].store(rng)
-            t = encode(case, res, vals)
+            t = encode(case, res, vals, with_store=(ctx.thorough or len(terms) % 3 == 0))
         except Skip as e:
             ctx.hist("outside_model", "%s: %s" % (case["kind"], str(e)[:40]))
             continue
@@ -295,5 +311,7 @@ def correspondence(ctx, cases):
         kept.append((case, res))
     if not terms:
         return 0, []
-    bad = ctx.coq_eval_failing(HEADER, "ccase", "check", terms, shard=120)
+    b = lambda v: "true" if v else "false"
+    fx = "(mkFixes %s %s %s)" % (b(FX["shortcut"]), b(FX["stride"]), b(FX["redstore"]))
+    bad = ctx.coq_eval_failing(HEADER, "ccase", "check " + fx, terms, shard=ctx.pick(60, 200))
     return len(terms), [(kept[i][0], kept[i][1], terms[i][:3000]) for i in bad]
